@@ -472,6 +472,10 @@ def _pick_value_arg(groups, mask, aslist):
     idx = sorted(i for s in sel for i in groups[s][1])
     if len(vals) == 1 and not aslist:
         return vals[0], idx
+    if mask % 5 == 0:
+        # the list of wanted values taken from another object's descriptor: values repeat and come
+        # in any order; the subset still holds each matching item once, in original order
+        vals = vals[::-1] + [vals[0]]
     return vals, idx
 
 
@@ -874,6 +878,26 @@ def _df_roundtrip(st, rec):
     if m.kind != 'ds' or 'name' not in m.ch_keys or m.col_time_keys:
         return False
     names = [m.col_value(c, 'name') for c in m.cols]
+    if st.live and 'roi' in m.ch_keys:
+        # a table whose data columns are labelled by a descriptor shared by several channels (voxels
+        # of one region): every channel still has its own column, under its label
+        df = _call('to_df', st.obj.to_df, 'roi')
+        meas = np.asarray(st.obj.measurements)
+        rois = [norm(v) for v in st.obj.channel_descriptors['roi']]
+        for lab in {hkey(r): r for r in rois}.values():
+            js = [j for j, r in enumerate(rois) if same(r, lab)]
+            try:
+                block = np.asarray(df.loc[:, [bool(same(c, lab)) for c in df.columns]], dtype=float)
+            except Exception:  # noqa: BLE001
+                continue
+            if any(same(lab, k) for k in list(st.obj.obs_descriptors) + list(st.obj.descriptors)):
+                continue        # label collides with a descriptor column name
+            got = sorted(tuple(block[:, q]) for q in range(block.shape[1]))
+            want = sorted(tuple(meas[:, j]) for j in js)
+            require(got == want, "to_df(channel_descriptor='roi'): %d channels carry the label %r, the "
+                    'table has %d columns under it%s' % (len(js), lab, len(got),
+                                                          '' if len(got) != len(want) else
+                                                          ' with other data'), 'to_df:shared-labels')
     if len({hkey(n) for n in names}) < len(names):
         return False
     nm = m.clone()
